@@ -375,3 +375,42 @@ theorem getID_kept (keys : List Bytes) (keep : List Bool) (t : Trie1)
       rw [leafPrefOf_lt _ _ _ hlt hl]
       simp [hfl]
       omega
+
+/-! ### facts about `build` consumed by the property theorems -/
+
+namespace Descent
+
+/-- a successful `build` on a non-empty key list went through `build.go` after the order and
+    length checks -/
+theorem build_ok_inv (keys : List Bytes) (vals : Option (List Bytes)) (opt : Opt) (t : Trie1)
+    (hb : build keys vals opt = .ok t) (hne : keys ≠ []) :
+    strictAsc keys = true ∧ build.go keys vals opt keys.length = .ok t := by
+  have hn : ¬ keys.length = 0 := by
+    intro h; exact hne (List.length_eq_zero_iff.mp h)
+  unfold build at hb
+  simp only [hn, if_false] at hb
+  cases hs : strictAsc keys with
+  | false => simp [hs] at hb
+  | true =>
+    simp only [hs, Bool.not_true, Bool.false_eq_true, if_false] at hb
+    refine ⟨rfl, ?_⟩
+    cases vals with
+    | none => exact hb
+    | some vs =>
+      simp only at hb
+      split at hb
+      · cases hb
+      · exact hb
+
+theorem build_go_fields (keys : List Bytes) (vals : Option (List Bytes)) (opt : Opt) (n : Nat)
+    (t : Trie1) (hb : build.go keys vals opt n = .ok t) :
+    t.opt = opt ∧
+    t.elts = vals.map (fun vs => t.leafKeyIdx.toList.map (fun i => vs.getD i [])) := by
+  unfold build.go at hb
+  simp only at hb
+  split at hb
+  · cases hb
+  · cases hb
+    exact ⟨rfl, rfl⟩
+
+end Descent
